@@ -355,6 +355,10 @@ func lexFixtures() []lxSpec {
 		{name: "loop-back-to-start", alpha: abc, maxIn: 5, modes: []lxMode{{"", []lxRule{
 			L("T", catT(starT(catT(a, b)), altT(a, c))),
 		}}}},
+		// a fragment that matches the empty string, next to one that accumulates
+		{name: "nullable-fragment", alpha: abc, maxIn: 4, modes: []lxMode{{"", []lxRule{
+			L("A", lit("x")), L("", starT(a)), L("", b),
+		}}}},
 		// a rule that matches the empty string (accepted by the generator)
 		{name: "nullable-rule", alpha: []string{"a", "b"}, maxIn: 3, modes: []lxMode{{"", []lxRule{
 			L("AS", starT(a)), L("B", b),
